@@ -1229,3 +1229,100 @@ Proof.
   exists st0, a0, st1, (a0 ++ a1). split; [exact E0|]. rewrite sm_run_app, E0, E1. split; [reflexivity|].
   split; [|exact G1]. rewrite completions_app, C1. reflexivity.
 Qed.
+
+(* ---------------------------------------------------------------------------------------- *)
+(* bytes delivered together with an error are traced, and traced first                      *)
+(* ---------------------------------------------------------------------------------------- *)
+Section Traced.
+Variable dec_r dec_w : list bytes -> bytes -> option (list field).
+
+Lemma cancel_conn_tracers c c2 : cancel_conn c = Some c2 -> c_rd c2 = c_rd c /\ c_wr c2 = c_wr c.
+Proof.
+  unfold cancel_conn. destruct (sm_cancel _ _ _) as [[m acts]|]; [|discriminate].
+  intros E; inversion E; subst; auto.
+Qed.
+
+Lemma ft_feed_cons_fst dec st d rest :
+  fst (ft_feed dec st (d :: rest)) = fst (ft_feed dec (fst (ft_trace dec st d)) rest).
+Proof. simpl. destruct (ft_trace dec st d) as [st1 o1]. cbn [fst]. destruct (ft_feed dec st1 rest) as [st2 o2]. reflexivity. Qed.
+
+Lemma conn_op_tracers c o c' r : conn_op dec_r dec_w c o = Some (c', r) ->
+  c_rd c' = fst (ft_feed dec_r (c_rd c) (read_chunks [o])) /\
+  c_wr c' = fst (ft_feed dec_w (c_wr c) (write_chunks [o])).
+Proof.
+  destruct o as [data e|data k e|e|n]; unfold read_chunks, write_chunks; cbn [flat_map app conn_op].
+  - rewrite ft_feed_cons_fst. destruct (ft_trace dec_r (c_rd c) data) as [rd frames]. cbn [fst ft_feed].
+    destruct (sm_frames _ _ _ _) as [[m acts]|]; [|discriminate].
+    destruct ((e =? 0) || (e =? 2)).
+    + intros E; inversion E; subst; auto.
+    + destruct (cancel_conn _) as [c2|] eqn:Cc; [|discriminate]. apply cancel_conn_tracers in Cc.
+      intros E; inversion E; subst. exact Cc.
+  - rewrite ft_feed_cons_fst. destruct (ft_trace dec_w (c_wr c) data) as [wr frames]. cbn [fst ft_feed].
+    destruct (sm_frames _ _ _ _) as [[m acts]|]; [|discriminate].
+    destruct (e =? 0).
+    + intros E; inversion E; subst; auto.
+    + destruct (cancel_conn _) as [c2|] eqn:Cc; [|discriminate]. apply cancel_conn_tracers in Cc.
+      intros E; inversion E; subst. exact Cc.
+  - destruct (cancel_conn c) as [c2|] eqn:Cc; [|discriminate]. apply cancel_conn_tracers in Cc.
+    intros E; inversion E; subst. exact Cc.
+  - intros E; inversion E; subst; auto.
+Qed.
+
+Lemma ft_feed_app_fst dec : forall a b st,
+  fst (ft_feed dec st (a ++ b)) = fst (ft_feed dec (fst (ft_feed dec st a)) b).
+Proof.
+  induction a as [|d a IH]; intros b st; [reflexivity|].
+  change ((d :: a) ++ b) with (d :: (a ++ b)). rewrite !ft_feed_cons_fst. apply IH.
+Qed.
+
+(* for ANY op list - any inner-conn errors, returned with or without bytes, timeouts, short writes: the read
+   tracer has been fed exactly the chunks the inner Reads delivered, all of them, in order, and the write
+   tracer exactly what the caller handed to Write *)
+Lemma all_bytes_traced_proof : forall ops c c' rs,
+  conn_run dec_r dec_w c ops = Some (c', rs) ->
+  c_rd c' = fst (ft_feed dec_r (c_rd c) (read_chunks ops)) /\
+  c_wr c' = fst (ft_feed dec_w (c_wr c) (write_chunks ops)).
+Proof.
+  induction ops as [|o r IH]; intros c c' rs; cbn [conn_run].
+  - intros E; inversion E; subst; auto.
+  - destruct (conn_op dec_r dec_w c o) as [[c1 x]|] eqn:O; [|discriminate].
+    destruct (conn_run dec_r dec_w c1 r) as [[c2 xs]|] eqn:R; [|discriminate].
+    intros E; inversion E; subst.
+    destruct (conn_op_tracers _ _ _ _ O) as [A B]. destruct (IH _ _ _ R) as [A2 B2].
+    replace (read_chunks (o :: r)) with (read_chunks [o] ++ read_chunks r)
+      by (unfold read_chunks; cbn [flat_map]; rewrite app_nil_r; reflexivity).
+    replace (write_chunks (o :: r)) with (write_chunks [o] ++ write_chunks r)
+      by (unfold write_chunks; cbn [flat_map]; rewrite app_nil_r; reflexivity).
+    rewrite (ft_feed_app_fst dec_r (read_chunks [o]) (read_chunks r)), (ft_feed_app_fst dec_w (write_chunks [o]) (write_chunks r)).
+    rewrite <- A, <- B. auto.
+Qed.
+
+(* so on a fresh connection the tracers are where ONE error-free call on all the bytes would have left them *)
+Lemma all_bytes_traced_one_shot_proof : forall server ops c' rs,
+  conn_run dec_r dec_w (conn_init server) ops = Some (c', rs) ->
+  c_rd c' = fst (ft_trace dec_r (ft_init server) (concat (read_chunks ops))) /\
+  c_wr c' = fst (ft_trace dec_w (ft_init (negb server)) (concat (write_chunks ops))).
+Proof.
+  intros server ops c' rs E. destruct (all_bytes_traced_proof _ _ _ _ E) as [A B].
+  cbn [conn_init c_rd c_wr] in A, B. rewrite A, B, !chunking_independent_proof. auto.
+Qed.
+
+(* a Read that returns bytes together with an error: first exactly what the same Read without error does
+   (bytes through the frame tracer, completed frames to the stream layer), THEN the error is acted upon
+   (nothing for a timeout, cancelAll otherwise); the caller gets bytes and error *)
+Lemma read_error_after_tracing_proof : forall c data e,
+  conn_op dec_r dec_w c (ORead data e) =
+  match conn_op dec_r dec_w c (ORead data 0) with
+  | None => None
+  | Some (c1, _) =>
+    if read_fatal e
+    then match cancel_conn c1 with None => None | Some c2 => Some (c2, RRead data e) end
+    else Some (c1, RRead data e)
+  end.
+Proof.
+  intros c data e. unfold read_fatal. cbn [conn_op].
+  destruct (ft_trace dec_r (c_rd c) data) as [rd frames].
+  destruct (sm_frames _ _ _ _) as [[m acts]|]; [|reflexivity].
+  cbn [N.eqb orb]. destruct ((e =? 0) || (e =? 2)); reflexivity.
+Qed.
+End Traced.
